@@ -256,6 +256,7 @@ int main(int argc, char** argv) {
         // defaults) meets records whose layout matters (raw-string records end at the last slash of a line)
         rep.run_cases([&](long idx, Rng& rng) {
             gdeck::Opts o;
+            o.exoticRunspec = rng.chance(0.5);
             gdeck::Generator gen(rng, o);
             const std::string base = gen.generate().text();
             Deck d;
